@@ -239,7 +239,12 @@ Proof.
   intros W. assert (Hh : (h < length (chans s))%nat) by (destruct W as [A _]; eapply tget_handles; eauto).
   assert (G1 : good s [] (set_table s (tdel (table s) i))).
   { apply good_frame; auto; [|apply silent_nil]. intros [A B]. split; [now apply tdel_handles|exact B]. }
-  refine (good_trans s [] _ _ _ G1 _ W).
+  set (s1 := set_table s (tdel (table s) i)) in *.
+  set (s2 := set_queue s1 (filter (fun it => negb (Nat.eqb (fst (fst it)) h)) (queue s1))).
+  assert (G2 : good s1 [] s2).
+  { apply good_frame; auto; [|apply silent_nil]. intros [A B]. split; [exact A|].
+    cbn [queue s2 set_queue chans]. rewrite Forall_forall in *. intros x Hx. apply filter_In in Hx as [Hx _]. now apply B. }
+  refine (good_trans s [] _ _ _ G1 (good_trans s1 [] s2 _ _ G2 _) W).
   apply set_ready_good; [exact Hh|destruct (ch_state _); cbn; lia].
 Qed.
 
